@@ -199,7 +199,7 @@ func c12DotAlphabet(tier string) []vEvent {
 func c12DeepAlphabet(tier string) []vEvent {
 	depth := 12
 	if tier == "thorough" {
-		depth = 24
+		depth = 22
 	}
 	var out []vEvent
 	p := ""
@@ -209,7 +209,8 @@ func c12DeepAlphabet(tier string) []vEvent {
 		}
 		p += "d"
 		out = append(out, vEvent{Kind: 0, Path: p})
-		if i >= 7 {
+		// siblings around the depths at which the validator's stack grows (10, and 20 in the thorough tier)
+		if (i >= 7 && i <= 12) || i >= 18 {
 			out = append(out, vEvent{Kind: 0, Path: p + "x"}, vEvent{Kind: 1, Path: p + "x"}, vEvent{Kind: 1, Path: p + "a"}, vEvent{Kind: 2, Path: p + "m"})
 		}
 	}
